@@ -102,6 +102,23 @@ func (impl Implementation) Dgeev(jobvl lapack.LeftEVJob, jobvr lapack.RightEVJob
 		return 0
 	}
 
+	// Check the slice lengths before the workspace size computation below
+	// starts using work[0].
+	if lwork != -1 {
+		switch {
+		case len(a) < (n-1)*lda+n:
+			panic(shortA)
+		case len(wr) != n:
+			panic(badLenWr)
+		case len(wi) != n:
+			panic(badLenWi)
+		case len(vl) < (n-1)*ldvl+n && wantvl:
+			panic(shortVL)
+		case len(vr) < (n-1)*ldvr+n && wantvr:
+			panic(shortVR)
+		}
+	}
+
 	maxwrk := 2*n + n*impl.Ilaenv(1, "DGEHRD", " ", n, 1, n, 0)
 	if wantvl || wantvr {
 		maxwrk = max(maxwrk, 2*n+(n-1)*impl.Ilaenv(1, "DORGHR", " ", n, 1, n, -1))
@@ -126,19 +143,6 @@ func (impl Implementation) Dgeev(jobvl lapack.LeftEVJob, jobvr lapack.RightEVJob
 	if lwork == -1 {
 		work[0] = float64(maxwrk)
 		return 0
-	}
-
-	switch {
-	case len(a) < (n-1)*lda+n:
-		panic(shortA)
-	case len(wr) != n:
-		panic(badLenWr)
-	case len(wi) != n:
-		panic(badLenWi)
-	case len(vl) < (n-1)*ldvl+n && wantvl:
-		panic(shortVL)
-	case len(vr) < (n-1)*ldvr+n && wantvr:
-		panic(shortVR)
 	}
 
 	// Get machine constants.
